@@ -43,6 +43,7 @@ type World struct {
 	ImmutableViolations []string
 	indexByContainer    bool
 	constGlobals        map[*ssa.Global]*ssa.Const
+	parametric          map[*ssa.Function]bool
 }
 
 func repoDir() string {
